@@ -566,6 +566,14 @@ fn run_op(ctx: &Ctx, graph: &mut ModuleGraph, op: &Value) -> Value {
       }
       json!({"graph": dump_graph(ctx, &seg), "then": inner})
     }
+    "add_redirect" => {
+      // Builder::add_redirect through the cfg(deno_graph_verif) hook (a builder is created on the graph and dropped again)
+      let loader = deno_graph::source::MemoryLoader::new(Vec::<(String, deno_graph::source::Source<String, String>)>::new(), vec![]);
+      let r = ids_to_urls(ctx, &json!([op["requested"].clone()])).remove(0);
+      let t = ids_to_urls(ctx, &json!([op["target"].clone()])).remove(0);
+      graph.verif_add_redirect(&loader, BuildOptions::default(), r, t);
+      json!({"graph": dump_graph(ctx, graph)})
+    }
     "dump" => json!({"graph": dump_graph(ctx, graph)}),
     o => json!({"error": format!("unknown op {o}")}),
   }
